@@ -121,7 +121,7 @@ func tf(b bool) string {
 
 // rowValues: wire values of every kind a caller puts in a row
 var rowValues = []string{"D+:10:0", "D+:9:0", "D+:2:0", "D-:5:-1", "D+:0:0", "D+:100:-1", "D+:1234567890123456789012345678901234:3", "Dnan", "Dinf",
-	"S" + "3130", "S" + "39", "S" + "32", "S" + "61", "S" + "", "S" + "41", "N", "T", "F", "P", "Ps", "Pm", "Pt", "Pf", "Ii:10", "Ii:9", "Ii8:-3", "G322e35", "A2 Ii:1 Ii:2", "A0"}
+	"S" + "3130", "S" + "39", "S" + "32", "S" + "61", "S" + "", "S" + "41", "N", "T", "F", "P", "Ps", "Pm", "Pt", "Pf", "Pd", "g302e3130303030303030313439303131363132", "G4e614e", "G496e66", "G2d496e66", "G2d30", "Ii:10", "Ii:9", "Ii8:-3", "G322e35", "A2 Ii:1 Ii:2", "A0"}
 
 // rowsBlock evaluates each formula (over the variables a and b) on many rows of differing kinds, the same parsed
 // tree serving all rows of a formula (see implEvalInner), rows in a shuffled order
@@ -572,8 +572,8 @@ func suiteCompare(o *Out, thorough bool, seed int64) {
 		}
 	}
 	// null in all its shapes: the untyped nil and typed nil pointers of several Go types, every ordered pair
-	for _, x := range []string{"N", "P", "Ps", "Pm", "Pt", "Pf"} {
-		for _, y := range []string{"N", "P", "Ps", "Pm", "Pt", "Pf", "Ii:0", "S", "F"} {
+	for _, x := range []string{"N", "P", "Ps", "Pm", "Pt", "Pf", "Pd"} {
+		for _, y := range []string{"N", "P", "Ps", "Pm", "Pt", "Pf", "Pd", "Ii:0", "S", "F"} {
 			emitEval(o, "[a === b, a !== b, a == b, a != b, a === null, b == null, a ?? 1, !a]", 0, "-", wmap("a", x, "b", y), true)
 			emitEval(o, "[m.a === m.b, m.a == m.b, m.a !== null]", 0, "-", wmap("m", wmap("a", x, "b", y)), true)
 		}
@@ -1166,7 +1166,10 @@ func sufficiencyOracle(o *Out, line, text, obs string) {
 
 // ---------- C11 ----------
 
-var bridgeArgVals = []string{"N", "T", "F", "Ii:0", "Ii:5", "D-:25:-1", "D+:3:0", "D+:12345678901:0", "D+:9007199254740993:0", "D-:9223372036854775807:0", "D+:1234567890123456789:-1", "D+:99999999999999999999:-20", "D-:4199999999999999999999:-20", "D+:45035996273704975:-1", "D+:675539944105574375:-2", "D+:12345678901234567:-3", "D+:9007199254740993:-5", "D+:1000000000000000055511151231257827:-34", "D+:29999999999999999999:-19", ws(""), ws("txt"), ws("12"),
+var bridgeArgVals = []string{"N", "T", "F", "Ii:0", "Ii:5", "D-:25:-1", "D+:3:0", "D+:12345678901:0", "D+:9007199254740993:0", "D-:9223372036854775807:0", "D+:1234567890123456789:-1", "D+:99999999999999999999:-20", "D-:4199999999999999999999:-20", "D+:45035996273704975:-1", "D+:675539944105574375:-2", "D+:12345678901234567:-3", "D+:9007199254740993:-5", "D+:1000000000000000055511151231257827:-34", "D+:29999999999999999999:-19",
+	"Dnan", "Dinf", "D-inf", "D+:9223372036854775808:0", "D+:9223372036854775807:0", "D-:9223372036854775809:0", "D+:1:19", "D-:1:19", "D+:1:400", "D+:1:3", "D+:12:17", "D+:5:0", "D+:300:0", "D-:129:0", "D+:127:0", "D-:128:0",
+	"D+:40000:0", "D+:2147483648:0", "D-:2147483649:0", "D+:1677721700000000000000001:-17", "D+:1000000059604644775390625000000001:-33", "D+:100000005960464478:-17", "D+:1000000059604644775390625:-24", "D+:34028235677973366:22",
+	"A2 Ii:65 Ii:66", "A2 Ii64:65 Ii32:66", "A3 Ii:1 G312e35 T", "A1 A2 D+:1:0 N", "A2 N " + "S61", "O2 S61 Ii:1 S62 S78", "O2 S61 N S62 Ii:1", "O1 S6b A1 N", "Pd", "Ps", "g302e3130303030303030313439303131363132", ws(""), ws("txt"), ws("12"),
 	"A0", "A2 D+:1:0 D+:2:0", "A2 " + ws("a") + " " + ws("b"), "A2 D+:1:0 N", wmap("k", "D+:1:0"), "O0", "M1700000000000000000:0", "P", "G" + hx([]byte("1.5")), "Iu8:7"}
 
 var bridgeTypes = []string{"s", "b", "i", "i8", "i16", "i32", "i64", "f32", "f64", "a", "d", "t", "[s", "[d", "[a", "[i", "{a", "{s", "u8", "Ns", "Nb", "Ni", "Ni32", "Ni64", "Nf32", "Nf64", "Na", "N[s", "[Ns", "[Ni64", "{Ns"}
@@ -1230,12 +1233,51 @@ func suiteBridge(o *Out, thorough bool, seed int64) {
 		}
 	}
 	// results: returned Go numbers are normalised; errors abort; wrong result count
-	for _, res := range []string{"Ii:7", "Ii32:-7", "Ii64:9007199254740993", "G" + hx([]byte("0.1")), "Ii8:7", "Iu:7", ws("s"), "N", "T", "A1 Ii:1"} {
+	for _, res := range []string{"Ii:7", "Ii32:-7", "Ii64:9007199254740993", "G" + hx([]byte("0.1")), "Ii8:7", "Iu:7", ws("s"), "N", "T", "A1 Ii:1", "Pd", "P", "g302e3130303030303030313439303131363132", "G4e614e", "G2d496e66", "M86400000000000:3600", "O1 S6b Ii:0", structWire(0)} {
 		for _, fail := range []bool{false, true} {
 			for _, nres := range []int{2, 1, 3} {
 				h := hostSpec{id: 1, nres: nres, fail: fail, params: []string{"a"}, result: res}
 				emit(h, []string{"Ii:1"}, false)
 			}
+		}
+	}
+	// a failing host function: the error names the call as it is written in the formula
+	{
+		fail := func(x interface{}) (interface{}, error) { return nil, fmt.Errorf("boom") }
+		okf := func(x interface{}) (interface{}, error) { return x, nil }
+		fd := map[string]interface{}{"fail": fail, "ok": okf, "mod": map[string]interface{}{"fail": fail, "ok": okf}}
+		for _, c := range []struct{ text, name string }{{"fail(1)", "fail"}, {"mod.fail(1)", "mod.fail"}, {"mod!.fail(1)", "mod.fail"}, {"ok(fail(1))", "fail"}, {"ok(mod.fail(ok(2)))", "mod.fail"},
+			{"[ok(1), fail(2)]", "fail"}, {"fail(1) + ok(2)", "fail"}, {"ok(1), fail(2), ok(3)", "fail"}, {"ok(1) ? fail(2) : 3", "fail"}, {"$a = fail(1)", "fail"}} {
+			nt := "NOP\terrname\t" + hx([]byte(c.text))
+			o.Case(nt, "-", true)
+			src, err := formula.ParseSourceCode([]byte(c.text))
+			if err != nil {
+				continue
+			}
+			rn := formula.NewRunner()
+			rn.SetThis(fd)
+			v, e := rn.Resolve(context.Background(), src.Expression)
+			if e == nil || v != nil {
+				o.Fail(nt, fmt.Sprintf("a host function returned an error but %q evaluated to %v, %v", c.text, v, e))
+			} else if !strings.Contains(e.Error(), "'"+c.name+"'") && !strings.Contains(e.Error(), " "+c.name+" ") {
+				o.Fail(nt, fmt.Sprintf("the error of %q does not name the function %s: %s", c.text, c.name, e.Error()))
+			} else if !strings.Contains(e.Error(), "boom") {
+				o.Fail(nt, fmt.Sprintf("the error of %q lost the function's own error: %s", c.text, e.Error()))
+			}
+		}
+	}
+	// arguments written in the formula (literals, computed values) rather than read from the data
+	{
+		for _, p := range []string{"s", "i", "i8", "i64", "f32", "f64", "a", "d", "[i", "[s", "[a", "[f64", "Ns", "Ni64"} {
+			for _, a := range []string{"1e3", "2.50", "0 * -1", "-0", "7 / 2", "1/3", "[1e3, 2.5e-1]", "['a', ['b']]", "1e19", "-1e19", "1/0", "toFloat('x')", "9223372036854775808", "0.99999999999999999999",
+				"null", "[null]", "[1, null]", "'65'", "true", "[true, 2.5]", "16777217.00000000000000001", "3.4028235677973366e38", "1e-50", "12e17", "0.5e1"} {
+				h := hostSpec{id: 1, nres: 2, params: []string{p}, result: "Ii:1"}
+				emitEval(o, "h("+a+")", 0, h.String(), wmap("h", "H1"), true)
+			}
+		}
+		hv := hostSpec{id: 1, variadic: true, nres: 2, params: []string{"s", "a"}, result: "Ii:1"}
+		for _, t := range []string{"h('a', [1, null, 'x']...)", "h('a', [null]...)", "h('a', null)", "h('a', [[null]]...)", "h('a', ids...)", "h(ids...)"} {
+			emitEval(o, t, 0, hv.String(), wmap("h", "H1", "ids", "A2 Ii:65 Ii:66"), true)
 		}
 	}
 	n := 6000
@@ -1264,13 +1306,13 @@ func suiteNames(o *Out, thorough bool, seed int64) {
 	twinsEnabled = true
 	defer func() { twinsEnabled = false }()
 	inner := wmap("k", "Ii:1", "z", "Ii:0", "s", ws("str"), "n", "N", "p", "P", "b", "F", "deep", wmap("k", "Ii64:-5", "f", "G"+hx([]byte("2.5")), "u", "Iu8:3"))
-	data := wmap("a", inner, "b", wmap("a", inner), "n", "N", "p", "P", "ps", "Ps", "pt", "Pt", "len", "Ii:99", "max", ws("shadow"), "num", "Ii32:7", "str", ws("x"),
+	data := wmap("a", inner, "b", wmap("a", inner), "n", "N", "p", "P", "ps", "Ps", "pt", "Pt", "pd", "Pd", "len", "Ii:99", "max", ws("shadow"), "num", "Ii32:7", "str", ws("x"),
 		"t", "M0:0", "arr", "A1 Ii:1", "i8", "Ii8:5", "f", "G"+hx([]byte("0.25")), "tr", "T",
 		"tm", "Q3 S"+hx([]byte("a"))+" Ii:0 S"+hx([]byte("b"))+" Ii:5 S"+hx([]byte("z"))+" Ii:-1", "pi", "G"+hx([]byte("3.141592653589793")), "amt", "G"+hx([]byte("1234567.891")), "big", "G"+hx([]byte("16777217")), "i64", "Ii64:9007199254740993", "neg", "Ii32:-2147483648", "tiny", "G"+hx([]byte("0.000001234567891")))
 	keys := []string{"a", "b", "k", "z", "n", "p", "deep", "missing", "len", "s"}
 	seps := []string{".", "!."}
 	// every path of depth 0..3 over the key universe with . / !. at each position (roots: data names and this)
-	roots := []string{"a", "b", "n", "p", "ps", "pt", "len", "max", "num", "str", "missing", "this", "arr", "i8", "f", "tr"}
+	roots := []string{"a", "b", "n", "p", "ps", "pt", "pd", "len", "max", "num", "str", "missing", "this", "arr", "i8", "f", "tr"}
 	for _, t := range []string{"tm.a", "tm.b", "tm.z", "tm.missing", "tm.a == 0", "tm.a == null", "tm!.a", "tm.a + 1", "pi", "amt", "big", "i64", "neg", "tiny", "this.pi", "this.amt", "amt == 1234567.891", "big - 16777216", "pi * 2", "i64 - 9007199254740992", "[pi, amt, big]", "tiny * 1e6"} {
 		emitEval(o, t, 0, "-", data, true)
 	}
@@ -1299,6 +1341,11 @@ func suiteNames(o *Out, thorough bool, seed int64) {
 		for _, t := range []string{"a", "a.b", "a.b.c", "a!.b", "this", "this.a", "this.a.b", "len", "len.x", "abs", "a == null", "a === null", "this == null"} {
 			emitEval(o, t, 0, "-", d, true)
 		}
+	}
+	// a nil *decimal.Big is null like every other typed nil pointer, wherever it is used
+	for _, t := range []string{"pd", "pd == null", "pd === null", "null === pd", "pd !== null", "!pd", "!!pd", "pd ?? 0", "pd ? 1 : 2", "pd + 1", "1 - pd", "-pd", "+pd", "abs(pd)", "max(pd, 1)", "typeof pd",
+		"pd.k", "pd!.k", "toString(pd)", "finite(pd)", "[pd]", "$a = pd, $a == null", "pd == p", "pd === p", "a.pd", "len(pd)", "pd < 1", "pd && 1", "pd || 2"} {
+		emitEval(o, t, 0, "-", data, true)
 	}
 	// struct values: exported fields, fields promoted from embedded structs (by value, by pointer, two levels, hidden
 	// by an outer field), unexported and missing names (errors), structs inside maps and arrays
